@@ -12,6 +12,8 @@ From Coq Require Import String.
 From Coq Require Import List Arith NArith Bool.
 Require Import RV.Model.Base RV.Model.Slot RV.Gen.Crc16Tab RV.Model.SlotGen.
 Require Import RV.Proofs.SlotProofs RV.Proofs.SlotGenProofs.
+Require Import RV.Model.BuilderGraph RV.Model.BuilderSem RV.Model.BuilderChecks RV.Gen.Builders.
+Require Import RV.Proofs.BuilderProofs RV.Proofs.BuilderGenProofs.
 Import ListNotations.
 Open Scope N_scope.
 
@@ -95,6 +97,57 @@ Proof.
   now rewrite (slot_eq_spec crc16tab gen_table_ok k Hb).
 Qed.
 Print Assumptions C18_noslot_slot_value.
+
+(** Via the builder graph regenerated from internal/cmds/gen_*.go: every parameter of every builder method that
+    the Redis command tables (hack/cmds/*.json) type as a key has a key-slot statement in that method. *)
+Theorem C18_key_methods : forall nd e i,
+  In nd (g_nodes builders) -> In e (n_edges nd) -> In i (e_keydecl e) ->
+  exists o, In o (e_ks e) /\ ks_param o = i.
+Proof.
+  intros nd e i Hn He Hi. pose proof gen_graph_keys_ok as H. unfold graph_keys_ok in H.
+  rewrite forallb_forall in H. specialize (H nd Hn). rewrite forallb_forall in H. specialize (H e He).
+  unfold edge_keys_ok in H. rewrite forallb_forall in H. specialize (H i Hi).
+  apply existsb_exists in H. destruct H as (o & Ho & Heq). apply N.eqb_eq in Heq. eauto.
+Qed.
+Print Assumptions C18_key_methods.
+
+(** ... and the slot of a command built along any path of that graph is [ks_run] over the key events of its
+    calls, so the three theorems above apply to every generated builder: a cluster-built path panics exactly
+    on a cross-slot key and otherwise carries the slot of every key. *)
+Theorem C18_built_slot : forall fe init rn r ss st,
+  find_root rn roots = Some r ->
+  run_path builders crc16tab fe init rn ss = Ok st ->
+  exists tr, resolve builders (r_node r) ss = Some tr /\ ks_run crc16tab init (path_events tr) = Ok (b_ks st).
+Proof. intros fe init rn r ss st Hr Hrun. exact (path_slot builders crc16tab fe init rn ss st r Hr Hrun). Qed.
+Print Assumptions C18_built_slot.
+
+Theorem C18_built_cluster_slot : forall fe rn r ss st,
+  find_root rn roots = Some r ->
+  run_path builders crc16tab fe InitSlot rn ss = Ok st ->
+  exists tr, resolve builders (r_node r) ss = Some tr /\
+    same_slot crc16tab (all_keys (path_events tr)) /\
+    forall k, In k (all_keys (path_events tr)) -> is_bytes k -> b_ks st = slot_spec k.
+Proof.
+  intros fe rn r ss st Hr Hrun.
+  destruct (path_slot builders crc16tab fe InitSlot rn ss st r Hr Hrun) as (tr & Hres & Hks).
+  exists tr. split; [exact Hres|].
+  destruct (same_slot_dec crc16tab (all_keys (path_events tr))) as [S|S].
+  - split; [exact S|]. destruct (C18_cross_slot_accepted _ S) as (s & Hs & _ & Hall).
+    rewrite Hks in Hs. inversion Hs; subst s. exact Hall.
+  - apply C18_cross_slot_rejected in S. rewrite Hks in S. discriminate.
+Qed.
+Print Assumptions C18_built_cluster_slot.
+
+Theorem C18_built_panic_is_cross_slot : forall fe rn r ss,
+  find_root rn roots = Some r ->
+  run_path builders crc16tab fe InitSlot rn ss = Panic ->
+  exists k tr, resolve builders (r_node r) (firstn k ss) = Some tr /\ ~ same_slot crc16tab (all_keys (path_events tr)).
+Proof.
+  intros fe rn r ss Hr Hrun.
+  destruct (path_panic builders crc16tab fe InitSlot rn ss r Hr Hrun) as (k & tr & Hres & Hp).
+  exists k, tr. split; [exact Hres|]. now apply C18_cross_slot_rejected.
+Qed.
+Print Assumptions C18_built_panic_is_cross_slot.
 
 (** non-vacuity: the standard check value; tagged keys share a slot and build; untagged ones are
     rejected by the cluster builder and accepted by the plain one *)
